@@ -191,7 +191,38 @@ def run(chk):
                 if n in p.bodies:
                     callers.setdefault(n, []).append((cb, bb, t))
 
+    INDEX_FINDERS = ("str::rfind", "str::find", "Iterator::position", "Iterator::rposition", "slice::binary_search")
+    OPTION_APPLIERS = ("Option::map_or", "Option::map", "Option::map_or_else", "Option::and_then", "Option::is_some_and", "Option::filter", "Option::is_none_or", "Option::inspect")
+
+    def closure_init(b):
+        """a closure handed to an Option adaptor whose receiver is the result of an index search (`s.rfind(c).map_or(0, |i| i + 1)`):
+        its argument is an index into held data, so it is below the data's length <= isize::MAX"""
+        eb = p.bodies.get(b.root)
+        if eb is None or b.arg_count != 2:
+            return None, None
+        du = flow.DefUse(eb)
+        clos = [flow.norm_place(s["place"])[0] for bb, s in eb.stmts() if s["k"] == "assign" and s["rv"]["k"] == "agg" and s["rv"].get("def") == b.path and not flow.norm_place(s["place"])[1]]
+        sites = []
+        for bb, t in eb.calls():
+            for a in t["args"]:
+                pl = flow.op_place(a)
+                if pl and pl[1] == () and any(pl[0] == cl or cl in du.trace_copy(pl[0]) for cl in clos):
+                    sites.append((bb, t))
+        if len(sites) != 1 or not names.call_is(sites[0][1], *OPTION_APPLIERS):
+            return None, None
+        rp = flow.op_place(sites[0][1]["args"][0])
+        src = None
+        for l in ([rp[0]] + list(du.trace_copy(rp[0]))) if rp and rp[1] == () else []:
+            d = du.single_def(l)
+            if d and d[0] == "call" and names.call_is(d[4], *INDEX_FINDERS):
+                src = d[4]
+        if src is None:
+            return None, None
+        return {("i", 2): Iv(0, intervals.LEN_MAX - 1)}, "argument is the index found by %s (< length <= isize::MAX)" % short(core.callee_of(src))
+
     def caller_init(b):
+        if b.path != b.root and b.def_kind == "Closure":
+            return closure_init(b)
         if b.j.get("is_pub", True) or b.path != b.root or b.def_kind not in ("Fn", "AssocFn"):
             return None, None
         sites = callers.get(b.path, [])
